@@ -149,7 +149,10 @@ def extended_format_RAISE_VARARGS(opc, instructions) -> Tuple[Optional[str], int
 
 
 def format_RAISE_VARARGS(argc):
-    assert 0 <= argc <= 2
+    # An operand outside 0..2 is not something the compiler emits, but
+    # disassembly should still show the instruction rather than abort.
+    if not 0 <= argc <= 2:
+        return ""
     if argc == 0:
         return "reraise"
     elif argc == 1:
